@@ -48,7 +48,7 @@ def test_name(test_src):
     return m.group(1) if m else None
 
 
-def replay(crate, module, test_src, log_path=None):
+def replay(crate, module, test_src, log_path=None, test=None):
     """Returns dict(release=..., dev=...) with values 'reproduced' | 'not_reproduced' | 'error'."""
     os.makedirs(os.path.join(CACHE, "replay" + TAG), exist_ok=True)
     lock = os.open(os.path.join(CACHE, "replay" + TAG, crate + ".lock"), os.O_CREAT | os.O_RDWR)
@@ -57,10 +57,13 @@ def replay(crate, module, test_src, log_path=None):
     result = {}
     try:
         dst = _prepare(crate)
-        modfile = os.path.join(dst, "src", module.replace("::", "/") + ".rs")
-        with open(modfile, "a") as f:
-            f.write("\n" + test_src + "\n")
-        name = test_name(test_src)
+        if test is None:
+            modfile = os.path.join(dst, "src", module.replace("::", "/") + ".rs")
+            with open(modfile, "a") as f:
+                f.write("\n" + test_src + "\n")
+            name = test_name(test_src)
+        else:
+            name = test  # an ordinary #[test] already present in the harness module (path relative to module)
         for profile in ("release", "dev"):
             # Same invocation `cargo kani playback` performs, except that for the release
             # replay Kani's forced `-Coverflow-checks=on` is dropped and cargo's release
